@@ -159,7 +159,8 @@ Proof.
   { intros ds Hds. apply last_for_foreign. intros k Hk E. apply act_sub in Hk.
     destruct (Hds k Hk) as [Hall Hnot]. apply Hnot. exact (Honly k Hall E). }
   rewrite (Hout post), (Hout pre).
-  - unfold dom_value. destruct (enabled (vals s) drv); reflexivity.
+  - unfold dom_value. destruct (enabled (vals s) drv); cbn [flat_map last_for]; auto.
+    destruct (last_for w (flat_map (snap_upd d s) (d_leaves drv))); reflexivity.
   - intros k Hk. split.
     + unfold all_leaves. rewrite Hd, flat_map_app. apply in_or_app. now left.
     + intros E. apply (proj1 (domain_apart pre drv post Hro Hd k E)), Hk.
